@@ -340,6 +340,122 @@ example : framingOk ⟨true, true, false⟩ [⟨[], 1, false⟩, ⟨[], 1, false
 example : framingOk ⟨false, true, true⟩ [⟨[], 1, false⟩] [.begin, .running 0, .version 0, .commit] = false := by decide
 
 
+/-! ### balanced brackets over the whole script -/
+
+theorem markers_append (xs ys : List Tok) : markers (xs ++ ys) = markers xs ++ markers ys := by
+  simp [markers]
+
+/-- a script the recogniser accepts from state `b` down to "outside a block" has, as its markers,
+    the pending commit (if it started inside a block) followed by whole `begin commit` pairs -/
+theorem markers_of_frameStep (l : List Tok) : ∀ (b : Bool), frameStep b l = some false →
+    ∃ k, markers l = (if b then [Tok.commit] else []) ++ pairs k := by
+  induction l with
+  | nil =>
+    intro b h
+    simp only [frameStep, Option.some.injEq] at h
+    subst h
+    exact ⟨0, rfl⟩
+  | cons t r ih =>
+    intro b h
+    have keep : ∀ (b' : Bool), isMarker t = false → frameStep b' r = some false →
+        ∃ k, markers (t :: r) = (if b' then [Tok.commit] else []) ++ pairs k := by
+      intro b' hm h'
+      obtain ⟨k, hk⟩ := ih b' h'
+      exact ⟨k, by rw [← hk]; simp [markers, hm]⟩
+    cases b with
+    | false =>
+      cases t with
+      | begin =>
+        simp only [frameStep] at h
+        obtain ⟨k, hk⟩ := ih true h
+        refine ⟨k + 1, ?_⟩
+        have : markers (Tok.begin :: r) = Tok.begin :: markers r := by
+          simp only [markers]; exact List.filter_cons_of_pos (by rfl)
+        rw [this, hk]; simp [pairs]
+      | commit => simp [frameStep] at h
+      | auto i => simp only [frameStep] at h; exact keep false rfl h
+      | dropVT => simp only [frameStep] at h; exact keep false rfl h
+      | createVT => simp [frameStep] at h
+      | running i => simp [frameStep] at h
+      | stmt i => simp [frameStep] at h
+      | version i => simp [frameStep] at h
+    | true =>
+      cases t with
+      | begin => simp [frameStep] at h
+      | commit =>
+        simp only [frameStep] at h
+        obtain ⟨k, hk⟩ := ih false h
+        refine ⟨k, ?_⟩
+        have : markers (Tok.commit :: r) = Tok.commit :: markers r := by
+          simp only [markers]; exact List.filter_cons_of_pos (by rfl)
+        rw [this, hk]; simp
+      | auto i => simp [frameStep] at h
+      | dropVT => simp only [frameStep] at h; exact keep true rfl h
+      | createVT => simp only [frameStep] at h; exact keep true rfl h
+      | running i => simp only [frameStep] at h; exact keep true rfl h
+      | stmt i => simp only [frameStep] at h; exact keep true rfl h
+      | version i => simp only [frameStep] at h; exact keep true rfl h
+
+theorem markers_of_noMarkers (l : List Tok) (h : noMarkers l = true) : markers l = [] := by
+  simp only [noMarkers, List.all_eq_true, Bool.not_eq_true'] at h
+  simp only [markers, List.filter_eq_nil_iff]
+  intro t ht
+  simp [h t ht]
+
+/-- **C18.framing_balanced.** For every configuration, every list of migrations (any layout of plain and
+autocommit sections, any number of version statements, CREATE / DROP of the version table): the begin / commit
+markers of the emitted script are a concatenation of `begin commit` pairs - every commit marker is preceded by its
+own begin marker and blocks never nest. -/
+theorem framing_balanced (c : Cfg) (migs : List Mig) (dropVT : Bool) : balanced (runToks c migs dropVT) := by
+  cases h : c.tddl
+  · exact ⟨0, markers_of_noMarkers _ (no_markers_without_tddl c migs dropVT h)⟩
+  · have := framed_of_tddl c migs dropVT h
+    simp only [framed, beq_iff_eq] at this
+    obtain ⟨k, hk⟩ := markers_of_frameStep _ false this
+    exact ⟨k, by simpa using hk⟩
+
+theorem countBegin_markers (l : List Tok) : countBegin l = countBegin (markers l) := by
+  induction l with
+  | nil => rfl
+  | cons t r ih => cases t <;> simp_all [countBegin, markers, isMarker]
+
+theorem countCommit_markers (l : List Tok) : countCommit l = countCommit (markers l) := by
+  induction l with
+  | nil => rfl
+  | cons t r ih => cases t <;> simp_all [countCommit, markers, isMarker]
+
+theorem count_pairs (k : Nat) : countBegin (pairs k) = k ∧ countCommit (pairs k) = k := by
+  induction k with
+  | zero => exact ⟨rfl, rfl⟩
+  | succ k ih =>
+    obtain ⟨a, b⟩ := ih
+    simp only [countBegin, countCommit] at a b ⊢
+    constructor <;> simp [pairs, a, b]
+
+/-- **C18.begin_commit_count.** In every emitted script the number of begin markers equals the number of commit
+markers, and the markers are exactly that many `begin commit` blocks. -/
+theorem begin_commit_count (c : Cfg) (migs : List Mig) (dropVT : Bool) :
+    countCommit (runToks c migs dropVT) = countBegin (runToks c migs dropVT) ∧
+      markers (runToks c migs dropVT) = pairs (countBegin (runToks c migs dropVT)) := by
+  obtain ⟨k, hk⟩ := framing_balanced c migs dropVT
+  have hb : countBegin (runToks c migs dropVT) = k := by rw [countBegin_markers, hk]; exact (count_pairs k).1
+  have hc : countCommit (runToks c migs dropVT) = k := by rw [countCommit_markers, hk]; exact (count_pairs k).2
+  exact ⟨by rw [hb, hc], by rw [hb, hk]⟩
+
+/-- the number of blocks: one plus the autocommit sections (single transaction), or one per migration plus its
+    autocommit sections (transaction per migration) -/
+theorem commit_count_single (c : Cfg) (migs : List Mig) (dropVT : Bool) (h : c.tddl = true) (hp : c.perMig = false) :
+    countCommit (runToks c migs dropVT) = 1 + totalAuto migs := by
+  rw [(begin_commit_count c migs dropVT).1, single_block_count c migs dropVT h hp]
+
+theorem commit_count_per_migration (c : Cfg) (migs : List Mig) (dropVT : Bool) (h : c.tddl = true) (hp : c.perMig = true) :
+    countCommit (runToks c migs dropVT) = migs.length + totalAuto migs := by
+  rw [(begin_commit_count c migs dropVT).1, per_migration_block_count c migs dropVT h hp]
+
+/-- non-vacuity: the recogniser of balance rejects the C18-m shape (a second block without its begin marker) -/
+example : balancedB [.begin, .running 0, .commit, .running 1, .commit] = false := by decide
+example : balancedB (runToks ⟨true, true, false⟩ [⟨[.plain 1, .auto 1], 1, true⟩, ⟨[], 2, false⟩] true) = true := by decide
+
 /-! ### several `configure()` calls in one env.py run (the multidb template) -/
 open Model.Online (ConfigureArgs CtxOpts configureCall configureAll effective)
 
